@@ -41,6 +41,15 @@ class DstC(SrcA):
   pass
 
 
+def raising_dst(cls, *args, **kwargs):
+  """A function destination of a detour that fails while creating the object."""
+  raise Boom()
+
+
+def ok_dst(cls, *args, **kwargs):
+  return DstB()
+
+
 def _timing_name():
   ctx = pg_tls.thread_local_get('__timing_context__', None)
   names = []
@@ -76,7 +85,7 @@ def _rows():
        lambda: dict(pg_tls.thread_local_kwargs(pg_fmt._TLS_REPR_FORMAT_KWARGS)), 'merge', {}),   # pylint: disable=protected-access
       ('view_options', lambda kw: pg.view_options(**kw), [dict(collapse_level=1), dict(collapse_level=2, key_style='label')],
        lambda: dict(pg_tls.thread_local_peek(pg_views._TLS_KEY_VIEW_OPTIONS, {})), 'merge', {}),   # pylint: disable=protected-access
-      ('detour', lambda m: pg.detour(m), [[(SrcA, DstB)], [(SrcA, DstC)]],
+      ('detour', lambda m: pg.detour(m), [[(SrcA, DstB)], [(SrcA, DstC)], [(SrcA, raising_dst)], [(SrcA, ok_dst)]],
        lambda: {k.__name__: getattr(v, '__name__', str(v)) for k, v in class_detour.current_mappings().items()}, 'detour', {}),
       ('timeit', pg_timing.timeit, ['t1', 't2'], _timing_name, 'timeit', ()),
   ]
@@ -194,6 +203,12 @@ def h_program(params, m2, m3, a1, a2, a3, depth, raise_at_end, catch_level, chec
   def run(k, stack):
     if k == d:
       check(stack, 'innermost')
+      if any(m == 'detour' for m, _ in stack):
+        obj = SrcA()          # object creation goes through the active detour (may raise Boom from the destination)
+        want_cls = _expected('detour', 'detour', {}, stack)['SrcA']
+        if want_cls in ('DstB', 'DstC', 'ok_dst') and type(obj).__name__ != ('DstB' if want_cls == 'ok_dst' else want_cls):
+          problems.append(('detour:creation_not_detoured', f'{stack!r}: got {type(obj).__name__}'))
+        check(stack, 'innermost_after_use')
       if raise_at_end:
         reach('program.exception')
         raise Boom()
@@ -216,6 +231,7 @@ def h_program(params, m2, m3, a1, a2, a3, depth, raise_at_end, catch_level, chec
   except Boom:
     if cl != 0:
       return Violation('harness:exception_escaped', '')
+    raise_at_end = True
   if problems:
     sig, detail = problems[0]
     if raise_at_end:
